@@ -26,13 +26,16 @@ ANCHORS = [("leuvenmapmatching/matcher/base.py", "BaseMatching.next"),
            ("leuvenmapmatching/matcher/simple.py", "SimpleMatcher.logprob_obs")]
 FLOORS = {"states_rescored": 12000, "nonemitting_states_rescored": 1500, "paths_rescored": 3000, "paths_with_nonemitting": 600,
           "paths_after_widen": 300, "paths_after_extend": 300, "family:distance": 600, "family:simple": 600, "family:simple_nodes": 600,
-          "second_order_paths": 800}
+          "second_order_paths": 800, "latlon_paths": 500}
 ASSUMPTIONS = ["geometry (projection points, relative positions, dist_obs) is taken as reported after self-consistency predicates; its truth is C05/C13",
                "log-probabilities compared at 1e-9*max(1,|x|)"]
 
 
 def gen_case(rng, i, tier):
     case = mcase.gen_mcase(rng, ne=(rng.random() < 0.7), width="maybe", tighten_p=0.2, sparse_p=0.35, max_obs=9)
+    if rng.random() < 0.15:
+        from .C05 import to_latlon
+        to_latlon(case, rng)  # street-scale latitude-longitude map, parameters in metres
     case["ops"] = gen.gen_history(rng, len(case["trace"]), case["cfg"]["width"], allow_cwd=False, max_ops=4)
     if not case.get("large") and not case["map"].get("latlon"):
         gen.add_pre_trace(rng, case)
@@ -58,6 +61,8 @@ def check_case(ctx, case):
         ctx.count("paths_rescored")
         ctx.count(f"paths_after_{op['op']}")
         ctx.count(f"family:{fam}")
+        if model.latlon:
+            ctx.count("latlon_paths")
         if case["cfg"]["agb"]:
             ctx.count("second_order_paths")
         if any(x.obs_ne for x in mt.lattice_best):
